@@ -36,6 +36,14 @@ std::vector<at::Tensor> dmrg_mv(
     auto options = A_cores[0].options();
     int64_t d = N.size();
 
+    if(d == 1)
+    {
+        // a single core: there is no bond to sweep over, the product is computed directly.
+        std::vector<at::Tensor> result;
+        result.push_back(at::tensordot(A_cores[0], x_cores[0], {2}, {1}).reshape({1, M[0], 1}));
+        return result;
+    }
+
     std::vector<at::Tensor> y_cores(d);
     std::vector<int64_t> ry(d+1);
     
